@@ -108,6 +108,9 @@ func (v DenseFloat32Vector) ReverseOrder() {
   }
 }
 func (v DenseFloat32Vector) Slice(i, j int) Vector {
+  if i < 0 || j > len(v) || i > j {
+    panic("Slice(): range is out of bounds")
+  }
   return v[i:j]
 }
 func (v DenseFloat32Vector) Swap(i, j int) {
@@ -161,6 +164,9 @@ func (v DenseFloat32Vector) ConstAt(i int) ConstScalar {
   return Float32{&v[i]}
 }
 func (v DenseFloat32Vector) ConstSlice(i, j int) ConstVector {
+  if i < 0 || j > len(v) || i > j {
+    panic("Slice(): range is out of bounds")
+  }
   return v[i:j]
 }
 func (v DenseFloat32Vector) AsConstMatrix(n, m int) ConstMatrix {
